@@ -534,3 +534,42 @@ impl super::JpegBitstreamReconstructor<'_, '_, '_> {
         Ok(())
     }
 }
+
+/// Verification hooks (`--cfg jxl_oxide_verif`).
+#[cfg(jxl_oxide_verif)]
+pub mod verif {
+    use super::*;
+
+    /// Entropy-codes one block of a sequential (baseline) scan with the given DHT-style tables
+    /// (`counts[len]`, values in code order with the trailing sentinel), starting from DC predictor
+    /// `prev_dc`, and returns the flushed bytes (padded with one bits, 0xFF stuffed).
+    pub fn encode_sequential_block(
+        dc_counts: [u8; 17],
+        dc_values: Vec<u8>,
+        ac_counts: [u8; 17],
+        ac_values: Vec<u8>,
+        prev_dc: i16,
+        dc: i16,
+        ac: &[i16],
+        extra_zero_runs: Option<u32>,
+    ) -> Result<Vec<u8>> {
+        let table = |counts, values| {
+            huffman::HuffmanCode {
+                is_ac: false,
+                id: 0,
+                is_last: true,
+                counts,
+                values,
+            }
+            .build()
+        };
+        let dc_table = table(dc_counts, dc_values);
+        let ac_table = table(ac_counts, ac_values);
+        let mut state = ScanState::new(1);
+        state.dc_pred[0] = prev_dc;
+        process_sequential(&mut state, 0, &dc_table, &ac_table, dc, ac, extra_zero_runs)?;
+        let mut out = Vec::new();
+        state.flush_bit_writer(None, &mut out)?;
+        Ok(out)
+    }
+}
